@@ -4,6 +4,7 @@ import (
 	"fmt"
 	"net/http"
 	"strconv"
+	"strings"
 
 	"github.com/zitadel/logging"
 
@@ -357,7 +358,7 @@ func checkCertificate(
 		for _, keyDesc := range metadata.SPSSODescriptor.KeyDescriptor {
 			for _, spX509Data := range keyDesc.KeyInfo.X509Data {
 				for _, reqX509Data := range request.KeyInfo.X509Data {
-					if spX509Data.X509Certificate == reqX509Data.X509Certificate {
+					if certificateText(spX509Data.X509Certificate) == certificateText(reqX509Data.X509Certificate) {
 						return nil
 					}
 				}
@@ -366,6 +367,11 @@ func checkCertificate(
 
 		return fmt.Errorf("unknown certificate used to sign request")
 	}
+}
+
+// certificateText removes the whitespace (line wrapping, indentation) base64 text may legally contain
+func certificateText(cert string) string {
+	return strings.Join(strings.Fields(cert), "")
 }
 
 func GetAcsUrlAndBindingForResponse(
